@@ -211,7 +211,10 @@ def run(tier, seed):
                                                                                                acc), (num, key))
         # unrecognised numerals: the documented empty answer
         for bad in ["", "7", "m7", "VIII", "IIII", "IIV", "VV", "IVI", "X", "bb", "#", "viii7", "iiii", "vvm7",
-                    "bVIIII7", "0", "N", "VIV"]:
+                    "bVIIII7", "0", "N", "VIV",
+                    # words that are names inside the library (function, table, module names) are not numerals either
+                    "tonic", "dominant7", "subtonic", "triads", "sevenths", "major_triad", "keys", "notes", "determine",
+                    "from_shorthand", "chord_shorthand", "__name__", "six"]:
             R.case(G_TOCH, (key, "bad", bad))
             ok, res = R.guard(G_TOCH, "unrecognised-numeral-yields-the-empty-answer", (bad, key),
                               lambda: P.to_chords(bad, key))
@@ -533,7 +536,7 @@ def run(tier, seed):
     return R.result(
         "30 keys x 7 degrees x {triad, seventh} x {table, function name, upper/lower alias, numeral string in both "
         "cases}; %d prefixes (%s) on '' and '7' in both cases in 30 keys; %d chord suffixes x 7 degrees x 2 cases x "
-        "%s in 30 keys; 18 unrecognised numerals x 30 keys; harmonic function of the 14 diatonic chords (every rotation) "
+        "%s in 30 keys; 31 unrecognised numerals (incl. 13 library-internal names) x 30 keys; harmonic function of the 14 diatonic chords (every rotation) "
         "in 15 major keys x {long, shorthand} + both inverse directions; parse/format of 14 numerals x prefixes %d..%d x %d "
         "suffixes; substitution: 7 numerals (both cases) x %d suffixes x prefixes -3..+3 x {5 rules x ignore_suffix, substitute "
         "depth 0..%d}, promises evaluated in all 15 major keys"
